@@ -435,6 +435,13 @@ func implConservative(cs Case) ImplResult {
 	if cs.Op == "gfm" {
 		d := unhx(cs.Args[0])
 		// extension.GFM versus its four members enabled together
+		// another GFM converter with NON-default renderer options renders first: GFM must not share renderer/parser
+		// objects between converters
+		ax := convertWithExtGFMOpts(d, true)
+		bx := convertWith(Cfg{Exts: "tskl", XHTML: true, Unsafe: true}, d)
+		if !bytes.Equal(ax, bx) {
+			res.Fails = append(res.Fails, OracleFail{"C11", "gfm-differs-from-members", fmt.Sprintf("%q (XHTML, unsafe): GFM %q, members %q", d, ax, bx)})
+		}
 		a := convertWithExtGFM(d)
 		b := convertWith(Cfg{Exts: "tskl"}, d)
 		if nonBlank(d) {
